@@ -641,6 +641,7 @@ func c15ProtoRoundTrip(r *core.Rec, e lib.Val) {
 	if back == nil {
 		return
 	}
+	c15RenderAgrees(r, "ToProto|"+e.Kind+"|"+e.Class, back, core.W{"element": e.ID, "system": lib.Show(sv)})
 	var sv2 system.Any
 	pi = core.Try(func() { sv2, err = system.From(back) })
 	if pi != nil || err != nil {
@@ -663,6 +664,46 @@ func c15ProtoRoundTrip(r *core.Rec, e lib.Val) {
 	}
 	if !same {
 		r.Fail("ToProto|"+e.Kind+"|"+e.Class+"|round-trip-changes-value", core.W{"element": e.ID, "system": lib.Show(sv), "after_round_trip": lib.Show(sv2), "proto": fmt.Sprint(back)})
+	}
+}
+
+// c15RenderAgrees: the repository's renderer and google/fhir's JSON renderer must agree on
+// every temporal element the repository itself produces (ToProto* results), and a
+// time-of-day element must hold microseconds since midnight, i.e. a value in [0, 24h).
+func c15RenderAgrees(r *core.Rec, key string, back proto.Message, w core.W) {
+	var got string
+	pi := core.Try(func() {
+		switch m := back.(type) {
+		case *dtpb.Date:
+			got = fhirconv.DateToString(m)
+		case *dtpb.DateTime:
+			got = fhirconv.DateTimeToString(m)
+		case *dtpb.Instant:
+			got = fhirconv.InstantToString(m)
+		case *dtpb.Time:
+			got = fhirconv.TimeToString(m)
+			if m.GetValueUs() < 0 || m.GetValueUs() >= 24*3600*1000000 {
+				w["value_us"] = m.GetValueUs()
+				r.Fail(key+"|time-element-outside-the-day", w)
+			}
+		default:
+			got = "\x00"
+		}
+	})
+	if pi != nil {
+		r.Fail(key+"|"+pi.Key(), w)
+		return
+	}
+	if got == "\x00" {
+		return
+	}
+	js, err := lib.PrimitiveJSON(back)
+	if err != nil {
+		return
+	}
+	if fmt.Sprint(js) != got {
+		w["fhirconv"], w["jsonformat"] = got, fmt.Sprint(js)
+		r.Fail(key+"|produced-element-renders-differently-from-jsonformat", w)
 	}
 }
 
@@ -760,6 +801,7 @@ func c15TemporalProto(r *core.Rec, kind, text, class string) {
 			continue
 		}
 		if back != nil {
+			c15RenderAgrees(r, "system-proto|"+c.name+"|"+class, back, core.W{"text": text})
 			// representable wherever the System type can: microsecond digits beyond ms may be cut
 			b2, _ := lib.PrimitiveJSON(back)
 			want := jstr
